@@ -128,7 +128,7 @@ def _fid(f):
 
 class Check(PropertyCheck):
     pid = "C09"
-    gen_files = ["GenCmd", "GenConfig"]
+    gen_files = ["GenCmd", "GenConfig", "GenBringupFn"]
     model_imports = ["lib.EzspTypes", "gen.GenCmd", "gen.GenConfig", "model.EzspCodec", "model.EzspCases", "model.Config", "model.Bringup"]
     run_expr = "run_bringup_case"
     case_type = "(N * N)"
